@@ -11,7 +11,7 @@ PID = "C26"
 LEVEL = "fault_enumeration"
 RULE = ("response sequences: exhaustive over an alphabet of 5 transient and 10 terminal responses, every sequence "
         "of up to 6 attempts (k transient then one terminal, k=0..5, and all 6-transient sequences), cycled over "
-        "the four verbs, plus hypothesis-generated bodies (random error ids/kinds/list shapes/content types/"
+        "the four verbs, plus hypothesis-generated bodies (random error ids/kinds/list shapes/content types/response headers such as Retry-After/"
         "statuses). Oracle = reference retry policy (calls made, same url, sleeps count/non-decreasing/<=2.0, "
         "returned JSON or RpcError carrying the last response's error); responses the statement leaves open "
         "(mixed temporary/permanent lists) branch the reference both ways. Non-trivial: sequence contains >=1 "
@@ -197,6 +197,8 @@ def _prop(case, stats):
         len(case["seq"]) == 6 and transient(case["seq"][-1]) is not False)
     k = sum(1 for s in case["seq"] if transient(s) is True)
     amb = any(transient(s) is None for s in case["seq"])
+    if any(s.get("headers") for s in case["seq"]):
+        stats.label("with-headers")
     stats.case(case, nt, "ambiguous-in-seq" if amb else "transient=%d" % k,
                sample={"verb": case["verb"], "seq": [(s["status"], s.get("ctype"), body_text(s)[:50])
                                                       for s in case["seq"]]})
@@ -219,6 +221,12 @@ def gen_specs():
     tx = st.builds(lambda s, c, t: {"status": s, "ctype": c, "text": t}, status, ctype,
                    st.sampled_from(["", "prevalidator.ml", "oops", "[", "Assert_failure prevalidator.ml:33"]))
     spec = st.one_of(js, tx, st.sampled_from(TRANSIENT), st.sampled_from(TRANSIENT))
+    # response headers a proxy or the node may add: the stated policy does not depend on them
+    hdr = st.one_of(st.none(), st.none(), st.fixed_dictionaries({}, optional={
+        "Retry-After": st.sampled_from(["0", "1", "2", "3", "120", "0.1", "abc", "Wed, 21 Oct 2015 07:28:00 GMT"]),
+        "Connection": st.sampled_from(["close", "keep-alive"]), "X-RateLimit-Remaining": st.sampled_from(["0", "10"]),
+        "Cache-Control": st.just("no-cache"), "Content-Length": st.just("0")}))
+    spec = st.builds(lambda sp, hd: dict(sp, headers=hd) if hd else sp, spec, hdr)
 
     def fix200(s):
         # success responses are JSON (documented node behaviour); non-JSON 200 is outside the stated alphabet
